@@ -209,11 +209,14 @@ def run(ctx):
     if f:
         v = FnView.get(P, f)
         idc = lambda t: mentions(t, lambda s: s[0] == "const" and "ID" in str(s[2])) or (t[0] == "const" and "uneval" in str(t[2]))
-        got = lambda t: t[0] == "ok" and is_call(t[1], name="deserialize")
+        got = lambda t: mentions(t, lambda s: s[0] == "ok" and is_call(s[1], name="deserialize"))
         refusal(ctx, f, "SEP", "G45:other-ciphersuite-refused",
                 [("id!=C::ID", cmp_fact("eq", idc, got, False)), ("id!=C::ID", cmp_fact("eq", got, idc, False))], ok_sinks(f))
-        oks = {b for (b, k, _) in ret_writes(f) if k == "ok"}
-        ctx.check(len(oks) == 2, "SEP", f.key, "G45:both-encodings-checked", "expected one Ok per encoding (human readable / binary)", f.loc)
+        # both encodings exist and each decodes the field it compares (the SEP above covers every path to Ok)
+        des = [bb for (bb, t, ci) in f.calls() if ci and ci.get("name") == "deserialize"]
+        hr = [e for (e, fa) in v.facts if fa[0] == "cond" and mentions(fa[2], lambda s: is_call(s, name="is_human_readable"))]
+        ctx.check(len(des) == 2 and len(hr) == 2, "SEP", f.key, "G45:both-encodings-checked",
+                  "expected one decoding of the ciphersuite field per encoding (human readable / binary)", f.loc)
     # header-bearing types reach both checks through Header's Deserialize
     hdr = CORE + "Header"
     fam = serde_tab.family(P, hdr, "de")
